@@ -568,6 +568,35 @@ class KernelNP:
     def empty(self, shape, dtype=None):
         return LocalArr(shape)
 
+    def eye(self, n, dtype=None):
+        a = LocalArr((n, n))
+        for i in range(n):
+            for j in range(n):
+                a.cells[(i, j)] = 1.0 if i == j else 0.0
+        return a
+
+    def zeros(self, shape, dtype=None):
+        a = LocalArr(shape)
+        for c in a.cols():
+            a.cells[c] = 0.0
+        return a
+
+    def _data_bool(self, what, x):
+        """a test on the VALUES of the data (e.g. `np.any(theta[i])`): one symbolic boolean per
+        distinct operand, both outcomes explored by the path executor"""
+        k = mk(what, _key(x))
+        ex = paths.CUR
+        b = z3.Bool('data_%s_%d' % (what, abs(hash(repr(k))) % (10 ** 12)))
+        if ex is None or not getattr(ex, 'active', False):
+            raise NotImplementedError('data-dependent test outside a path executor')
+        return ex.decide(b)
+
+    def any(self, x):
+        return self._data_bool('any', x)
+
+    def all(self, x):
+        return self._data_bool('all', x)
+
     def _u(self, name, x):
         if isinstance(x, (int, float)):
             import numpy as np
